@@ -28,6 +28,15 @@ fn main() {
         let g1 = syscall(186); // gettid: forced
         let g2 = syscall(186); // real again
         println!("anynr first={g1} second_is_real={}", g2 != 777 && g2 > 0);
+        // post-mode injection (scope + 16): the call is executed, the caller is told something else.
+        // close(dup(1)) is told EINTR but the descriptor must really be gone: closing it again gives EBADF.
+        let d = syscall(32, 1i64); // dup
+        syscall(M, 4i64, 16i64, 3i64, 0i64, -4i64, 1i64);
+        let c1 = syscall(3, d);
+        let e1 = *__errno_location();
+        let c2 = syscall(3, d);
+        let e2 = *__errno_location();
+        println!("post close told={c1}/{e1} again={c2}/{e2}");
         let f = std::fs::File::open("/proc/self/maps").unwrap();
         syscall(M, 5i64, 11i64, 0i64, 0i64, 0i64, 0i64); // SNAPFD tag 11
         drop(f);
